@@ -40,6 +40,8 @@ FLOORS["quick"].update({'fib_tables_with_default_route': 70, 'hub_synchronous_an
 FLOORS["thorough"].update({'fib_tables_with_default_route': 350, 'hub_synchronous_answers': 1000})
 FLOORS["quick"].update({'hub_endpoints_renamed_after_attach': 80})
 FLOORS["thorough"].update({'hub_endpoints_renamed_after_attach': 400})
+FLOORS["quick"].update({'fattree_flow_dicts_rekeyed': 80, 'hub_ports_prewired': 100})
+FLOORS["thorough"].update({'fattree_flow_dicts_rekeyed': 400, 'hub_ports_prewired': 500})
 
 
 def plan(tier):
